@@ -74,6 +74,8 @@ def main(ctx, replay=None):
     # two DIFFERENT calculations interleaved in one process, both orders (simulated histories may lack this by chance)
     behaviours.append(({"seed": "2", "cwd": "empty"}, [["Construct", 1, "A"], ["Construct", 2, "B"], ["Read", 2, "modulus_adiabatic"], ["Read", 1, "modulus_isothermal"],
                                                       ["Read", 2, "tp_bulk_vrh"], ["WriteOutput", 2], ["Read", 1, "tp_vp"]]))
+    behaviours.append(({"seed": "1", "cwd": "empty"}, [["Construct", 1, "A"], ["Read", 1, "modulus_adiabatic"], ["Construct", 2, "C"], ["Read", 2, "modulus_adiabatic"],
+                                                      ["Read", 2, "modulus_isothermal"], ["Read", 1, "tp_bulk_vrh"], ["WriteOutput", 2]]))
     behaviours.append(({"seed": "0", "cwd": "junk"}, [["Construct", 2, "B"], ["Read", 2, "tp_vp"], ["Construct", 1, "A"], ["Refill", 1], ["Read", 1, "modulus_adiabatic"],
                                                      ["Write", 1, "tp", "cij"], ["Read", 2, "modulus_isothermal"], ["Read", 1, "modulus_adiabatic"]]))
     exports = fillspec.cached_exports(ctx)
@@ -85,8 +87,12 @@ def main(ctx, replay=None):
     try:
         dsA = system_dataset(rng, exports, "hexagonal", lattice=True, nq=3, nat=2)
         dsB = free_dataset(rng, extra_shear=4, lattice=False, nq=2, nat=1)
-        datasets, systems = {}, {"A": "hexagonal", "B": None}
-        for c, ds in (("A", dsA), ("B", dsB)):
+        import copy
+        dsC = copy.deepcopy(dsA)                       # same shapes as A (NT, NTV, nq, np, keys), different temperatures and spectrum
+        dsC.amp = dsC.amp * 1.03
+        dsC.settings = dict(dsC.settings, DT=float(dsC.settings["DT"]) * 0.5, DT_SAMPLE=float(dsC.settings["DT"]) * 0.5)
+        datasets, systems = {}, {"A": "hexagonal", "B": None, "C": "hexagonal"}
+        for c, ds in (("A", dsA), ("B", dsB), ("C", dsC)):
             d = wd.sub(f"data{c}")
             ds.fit_pressure_window(d)
             datasets[c] = str(ds.write(d))
@@ -94,7 +100,7 @@ def main(ctx, replay=None):
         # ---- reference run: one fresh process, seed 0, empty directory ---------------------------------------
         # (one fresh process PER configuration: a reference must not itself have a history)
         ref_ev = []
-        for c in ("A", "B"):
+        for c in ("A", "B", "C"):
             ra = [["Construct", 1, c], ["Read", 1, "static_table"]] + [["Read", 1, q] for q in QUANT] + [["Write", 1, b, k] for b, k in WRITES] \
                 + [["WriteOutput", 1]] + ([["CliRun", "A"]] if c == "A" else [])
             ev, rc, err = run_worker(dict(base_job, actions=ra, mode="ref"), wd, f"ref{c}", 0, "empty")
